@@ -70,9 +70,11 @@ fn registry() -> Vec<PartEntry> {
         part!("C04", uni::C04Multi),
         part!("C05", life::C05Sched),
         part!("C05", seq::C05Seq),
+        part!("C06", life::C06EndAll),
         part!("C06", rtchan::C06Uni),
         part!("C06", rtchan::C06Multi),
         part!("C07", life::C07CancelAll),
+        part!("C07", life::C07EndOne),
         part!("C07", rtchan::C07Multi),
         part!("C08", seq::C08Reserved),
         part!("C09", log::C09Log),
